@@ -159,7 +159,13 @@ impl Parser {
                 return Err(new_err(ty_span, &input.user_data().get_source_file_name(), "`Self` is only a valid type for associated functions, and not normal functions. (Hint: if trying to accept a callback function, use a function type like `fn(int) -> bool`)".to_owned()));
             }
 
-            ident.link_force_no_inherit(input.user_data(), ty)?;
+            if add_to_scope_dependencies {
+                ident.link_force_no_inherit(input.user_data(), ty)?;
+            } else {
+                // a signature that is only being read (a class member's, before its body is
+                // parsed): the parameter must not become a name of the scope around it
+                ident.set_type_no_link(ty);
+            }
 
             result.push(ident);
         }
